@@ -124,6 +124,251 @@ let integer_line (toks : string list) : string option =
       Some ("ok " ^ show_sint (if z = M.Z0 then M.spos z else M.sneg_ z))
   | _ -> None
 
+
+(* ---------- world families: DEPLOY / VAMM / ACCOUNTS / OP / F / R / S / X lines ---------- *)
+let zi (n : int) : M.z = z_of_string (string_of_int n)
+let zs = z_of_string
+let world : M.world option ref = ref None
+let accounts : int list ref = ref []
+let vamm_ids : int list ref = ref []
+let next_fault : M.z ref = ref (zi (-1))
+let last_ok : bool ref = ref true
+let last_count : string ref = ref "?"
+let native = ref false
+let realfeed = ref false
+let obs : (string, string) Hashtbl.t = Hashtbl.create 512
+let obs_valid = ref false
+let cur_history = ref ""
+let cur_op = ref ""
+
+let kv (tok : string) : string * string =
+  match String.index_opt tok '=' with
+  | Some i -> (String.sub tok 0 i, String.sub tok (i+1) (String.length tok - i - 1))
+  | None -> (tok, "")
+let get kvs k = List.assoc k kvs
+
+let zopt s = if s = "-" then None else Some (zs s)
+let side_of s = if s = "B" then M.Buy else M.Sell
+let dir_of s = if s = "A" then M.AddToAmm else M.RemoveFromAmm
+
+let rec take n l = if n = 0 then [] else match l with [] -> [] | x :: t -> x :: take (n-1) t
+let rec dropl n l = if n = 0 then l else match l with [] -> [] | _ :: t -> dropl (n-1) t
+
+let parse_op (t : string list) : M.op option =
+  match t with
+  | ["block"; dt; dh] -> Some (M.OBlock (zs dt, zs dh))
+  | "eng" :: sender :: funds :: rest ->
+      let m = match rest with
+        | ["updcfg"; o; i; f; a; b; c; d] -> Some (M.EUpdateConfig (zopt o, zopt i, zopt f, zopt a, zopt b, zopt c, zopt d))
+        | ["updpauser"; a] -> Some (M.EUpdatePauser (zs a))
+        | ["addwl"; a] -> Some (M.EAddWhitelist (zs a))
+        | ["rmwl"; a] -> Some (M.ERemoveWhitelist (zs a))
+        | ["open"; v; sd; m; l; lim] -> Some (M.EOpenPosition (zs v, side_of sd, zs m, zs l, zs lim))
+        | ["close"; v; lim] -> Some (M.EClosePosition (zs v, zs lim))
+        | ["liq"; v; tr; lim] -> Some (M.ELiquidate (zs v, zs tr, zs lim))
+        | ["payfunding"; v] -> Some (M.EPayFunding (zs v))
+        | ["deposit"; v; a] -> Some (M.EDepositMargin (zs v, zs a))
+        | ["withdraw"; v; a] -> Some (M.EWithdrawMargin (zs v, zs a))
+        | ["setpause"; p] -> Some (M.ESetPause (p = "1"))
+        | _ -> None in
+      (match m with Some m -> Some (M.OEngine (zs sender, m, zs funds)) | None -> None)
+  | "vamm" :: sender :: v :: rest ->
+      let m = match rest with
+        | ["swapin"; d; q; l; c] -> Some (M.WSwapInput (dir_of d, zs q, zs l, c = "1"))
+        | ["swapout"; d; b; l] -> Some (M.WSwapOutput (dir_of d, zs b, zs l))
+        | ["settle"] -> Some M.WSettleFunding
+        | ["setopen"; o] -> Some (M.WSetOpen (o = "1"))
+        | ["updcfg"; h; oi; tl; sp; fl; e; i; f; tw] ->
+            Some (M.WUpdateConfig { M.u_hold_cap = zopt h; M.u_oi_cap = zopt oi; M.u_toll = zopt tl; M.u_spread = zopt sp;
+                                    M.u_fluct = zopt fl; M.u_engine = zopt e; M.u_ifund = zopt i; M.u_feed = zopt f;
+                                    M.u_twap_interval = zopt tw })
+        | ["updowner"; a] -> Some (M.WUpdateOwner (zs a))
+        | _ -> None in
+      (match m with Some m -> Some (M.OVamm (zs sender, zs v, m)) | None -> None)
+  | "if" :: sender :: rest ->
+      let m = match rest with
+        | ["updowner"; a] -> Some (M.IUpdateOwner (zs a))
+        | ["add"; v] -> Some (M.IAddVamm (zs v))
+        | ["rm"; v] -> Some (M.IRemoveVamm (zs v))
+        | ["withdraw"; a] -> Some (M.IWithdraw (zs a))
+        | ["shutdown"] -> Some M.IShutdown
+        | _ -> None in
+      (match m with Some m -> Some (M.OIfund (zs sender, m)) | None -> None)
+  | "fp" :: sender :: rest ->
+      let m = match rest with
+        | ["updowner"; a] -> Some (M.FUpdateOwner (zs a))
+        | ["add"; t] -> Some (M.FAddToken (zs t))
+        | ["rm"; t] -> Some (M.FRemoveToken (zs t))
+        | ["send"; t; a; r] -> Some (M.FSendToken (zs t, zs a, zs r))
+        | _ -> None in
+      (match m with Some m -> Some (M.OFeepool (zs sender, m)) | None -> None)
+  | "feed" :: sender :: rest ->
+      let m = match rest with
+        | ["append"; p; t] -> Some (M.PAppend (zs p, zs t))
+        | "appendmulti" :: np :: nt :: xs ->
+            let np = int_of_string np and nt = int_of_string nt in
+            Some (M.PAppendMultiple (List.map zs (take np xs), List.map zs (take nt (dropl np xs))))
+        | ["updowner"; a] -> Some (M.PUpdateOwner (zs a))
+        | _ -> None in
+      (match m with Some m -> Some (M.OFeed (zs sender, m)) | None -> None)
+  | "tok" :: sender :: rest ->
+      let m = match rest with
+        | ["allow"; a] -> Some (M.TIncreaseAllowance (zs a))
+        | ["mint"; t; a] -> Some (M.TMint (zs t, zs a))
+        | ["send"; t; a] -> Some (M.TSend (zs t, zs a))
+        | _ -> None in
+      (match m with Some m -> Some (M.OToken (zs sender, m)) | None -> None)
+  | _ -> None
+
+let sz = string_of_z
+let show_s (x : M.sint) = ocaml_string (M.s_to_string x)
+let show_rz = function M.Ok z -> sz z | M.Err _ -> "err"
+let show_rs = function M.Ok s -> show_s s | M.Err _ -> "err"
+let show_oa = function Some a -> sz a | None -> "none"
+let show_list l = if l = [] then "[]" else String.concat "," (List.map sz l)
+
+let compute_obs (w : M.world) =
+  Hashtbl.reset obs;
+  let put k v = Hashtbl.replace obs k v in
+  let e = w.M.w_env in
+  put "env.time" (sz e.M.now); put "env.height" (sz e.M.height);
+  let ids = [2; 3; 4] @ !accounts in
+  List.iter (fun id -> put (Printf.sprintf "bal.%d" id) (sz (M.bal w.M.w_tok (zi id)))) ids;
+  List.iter (fun id ->
+    put (Printf.sprintf "allow.%d" id)
+      (match M.zfind (zi id) w.M.w_tok.M.t_allow with Some a -> sz a | None -> "none")) !accounts;
+  let en = w.M.w_eng in
+  let c = en.M.ec and st = en.M.es in
+  put "e.owner" (sz c.M.e_owner); put "e.ifund" (sz c.M.e_ifund); put "e.feepool" (sz c.M.e_feepool);
+  put "e.dec" (sz c.M.e_dec); put "e.init" (sz c.M.e_init); put "e.maint" (sz c.M.e_maint);
+  put "e.plr" (sz c.M.e_plr); put "e.liqfee" (sz c.M.e_liqfee);
+  put "e.oi" (sz st.M.e_oi); put "e.baddebt" (sz st.M.e_bad_debt); put "e.pause" (show_bool st.M.e_pause);
+  put "e.tmpswap" (show_bool (en.M.e_tmp <> None)); put "e.sentfunds" (show_bool (en.M.e_sent <> None));
+  put "e.tmpliq" (show_bool (en.M.e_liq <> None));
+  put "e.pauser" (show_oa en.M.e_pauser);
+  put "e.wl" (show_list en.M.e_wl);
+  List.iter (fun vid ->
+    let va = zi vid in
+    match M.zfind va w.M.w_vamms with
+    | None -> ()
+    | Some v ->
+      let p k x = put (Printf.sprintf "v%d.%s" vid k) x in
+      let vc = v.M.vc and vs = v.M.vs in
+      p "open" (show_bool vs.M.v_open); p "q" (sz vs.M.v_q); p "b" (sz vs.M.v_b);
+      p "total" (show_s vs.M.v_total); p "frate" (show_s vs.M.v_frate); p "nextfund" (sz vs.M.v_next_funding);
+      p "holdcap" (sz vc.M.v_hold_cap); p "oicap" (sz vc.M.v_oi_cap); p "toll" (sz vc.M.v_toll);
+      p "spread" (sz vc.M.v_spread); p "fluct" (sz vc.M.v_fluct); p "dec" (sz vc.M.v_dec);
+      p "twapint" (sz vc.M.v_twap_interval); p "engine" (sz vc.M.v_engine); p "ifund" (sz vc.M.v_ifund);
+      p "feed" (sz vc.M.v_feed); p "owner" (show_oa v.M.v_owner);
+      p "snaps" (string_of_int (List.length v.M.snaps));
+      p "spot" (show_rz (M.q_spot v));
+      p "twap" (show_rz (M.q_twap_price v e vc.M.v_twap_interval));
+      p "twap15" (show_rz (M.q_twap_price v e (zi 900)));
+      let orc = M.oracle_of w v in
+      p "overspread" (match M.q_is_over_spread_limit v orc with M.Ok b -> show_bool b | M.Err _ -> "err");
+      p "uprice" (show_rz orc.M.o_price);
+      p "utwap" (show_rz (orc.M.o_twap vc.M.v_twap_interval));
+      p "cpf" (show_s (M.cumulative_premium_fraction en va));
+      let vm = M.read_vmap en va in
+      p "lrb" (sz vm.M.vm_lrb); p "ncpf" (string_of_int (List.length vm.M.vm_cpf));
+      List.iter (fun t ->
+        let k = Printf.sprintf "p%d.%d" vid t in
+        match M.find_position en va (zi t) with
+        | None -> put k "none"
+        | Some pos ->
+          put k "some";
+          let pp f x = put (k ^ "." ^ f) x in
+          pp "dir" (match pos.M.p_dir with M.AddToAmm -> "A" | M.RemoveFromAmm -> "R");
+          pp "size" (show_s pos.M.p_size); pp "margin" (sz pos.M.p_margin); pp "notional" (sz pos.M.p_notional);
+          pp "lupf" (show_s pos.M.p_lupf); pp "block" (sz pos.M.p_block);
+          pp "mr" (show_rs (M.query_margin_ratio w va (zi t)));
+          pp "fc" (show_rs (M.query_free_collateral w va (zi t)));
+          List.iter (fun (nm, o) ->
+            match M.get_pnl w va pos o with
+            | M.Ok (n, pnl) -> pp ("pn_" ^ nm) (sz n); pp ("pnl_" ^ nm) (show_s pnl)
+            | M.Err _ -> pp ("pn_" ^ nm) "err"; pp ("pnl_" ^ nm) "err")
+            [("spot", M.PSpot); ("twap", M.PTwap); ("oracle", M.POracle)];
+          pp "mwf" (match M.position_with_funding_payment w va (zi t) with M.Ok p -> sz p.M.p_margin | M.Err _ -> "err"))
+        !accounts) !vamm_ids;
+  let i = w.M.w_if in
+  put "if.owner" (show_oa i.M.if_owner);
+  put "if.vamms" (if i.M.if_stored then show_list (take 3 i.M.if_vamms) else "err");
+  List.iter (fun vid -> put (Printf.sprintf "if.isvamm.%d" vid) (show_bool (List.mem (zi vid) i.M.if_vamms))) !vamm_ids;
+  let f = w.M.w_fp in
+  put "fp.owner" (show_oa f.M.fp_owner);
+  put "fp.tokens" (if f.M.fp_stored then show_list (take 3 f.M.fp_tokens) else "err");
+  (match w.M.w_feed with
+   | M.FMock m -> put "feed.owner" (sz m.M.mf_owner); put "feed.price" (show_rz (M.mf_get m))
+   | M.FReal r ->
+       put "feed.owner" (show_oa r.M.rf_owner);
+       let ((rid, pr), tm) = M.rf_latest r in
+       put "feed.round" (sz rid); put "feed.price" (sz pr); put "feed.time" (sz tm));
+  obs_valid := true
+
+let world_line lineno line (toks : string list) : bool =
+  match toks with
+  | "HISTORY" :: rest -> cur_history := String.concat " " rest; world := None; true
+  | "END" :: _ -> true
+  | "DEPLOY" :: rest ->
+      let kvs = List.map kv rest in
+      let g k = get kvs k in
+      native := (g "native" = "1"); realfeed := (g "realfeed" = "1");
+      let d = { M.d_native = !native; M.d_decimals = zs (g "dec"); M.d_real_feed = !realfeed;
+                M.d_init = zs (g "init"); M.d_maint = zs (g "maint"); M.d_liqfee = zs (g "liqfee"); M.d_owner = zi 1 } in
+      let e = { M.now = zs (g "t0"); M.height = zs (g "h0") } in
+      (match M.init_world e d with
+       | M.Ok w -> world := Some w
+       | M.Err _ -> report lineno line "model: deployment rejected");
+      vamm_ids := []; obs_valid := false; next_fault := zi (-1); true
+  | "VAMM" :: a :: rest ->
+      let kvs = List.map kv rest in
+      let g k = zs (get kvs k) in
+      (match !world with
+       | Some w ->
+         let m = { M.i_decimals = g "dec"; M.i_feed = zi 5; M.i_engine = Some (zi 2); M.i_ifund = Some (zi 3);
+                   M.i_q = g "q"; M.i_b = g "b"; M.i_fperiod = g "fperiod"; M.i_toll = g "toll";
+                   M.i_spread = g "spread"; M.i_fluct = g "fluct" } in
+         (match M.add_vamm_instance w (zs a) (zi 1) m with
+          | M.Ok w' -> world := Some w'; vamm_ids := !vamm_ids @ [int_of_string a]
+          | M.Err _ -> report lineno line "model: vamm instantiate rejected")
+       | None -> report lineno line "model: no world"); true
+  | "ACCOUNTS" :: rest -> accounts := List.map int_of_string rest; true
+  | "F" :: k :: _ -> next_fault := zs k; true
+  | "OP" :: _n :: rest ->
+      cur_op := line;
+      (match !world, parse_op rest with
+       | Some w, Some op ->
+           let (w', ok) = M.step_f !next_fault w op in
+           (* number of sub-messages the model dispatched (engine / ifund / feepool ops) *)
+           last_count := (match op with
+             | M.OEngine (s, m, f) ->
+                 (match (if M.Z.eqb f M.Z0 then M.Ok w else M.Ok w) with
+                  | _ -> "?")
+             | _ -> "?");
+           world := Some w'; last_ok := ok; obs_valid := false
+       | None, _ -> report lineno line "model: no world"
+       | _, None -> report lineno line "model: cannot parse op");
+      next_fault := zi (-1); true
+  | "R" :: r :: _ ->
+      incr compared;
+      let m = if !last_ok then "ok" else "err" in
+      if m <> r then report lineno (!cur_history ^ " | " ^ !cur_op ^ " | " ^ line) ("result " ^ m);
+      true
+  | "X" :: _ -> true
+  | "S" :: rest ->
+      (match !world with
+       | Some w ->
+         if not !obs_valid then compute_obs w;
+         List.iter (fun tok ->
+           let (k, v) = kv tok in
+           incr compared;
+           match Hashtbl.find_opt obs k with
+           | Some mv -> if mv <> v then report lineno (!cur_history ^ " | " ^ !cur_op ^ " | " ^ k ^ "=" ^ v) (k ^ "=" ^ mv)
+           | None -> report lineno (!cur_history ^ " | " ^ !cur_op ^ " | " ^ tok) ("no-model-key " ^ k)) rest
+       | None -> ());
+      true
+  | _ -> false
+
 let split_arrow (toks : string list) : string list * string list =
   let rec go acc = function
     | [] -> (List.rev acc, [])
@@ -143,7 +388,7 @@ let handle_line lineno line =
        | None -> report lineno line "UNKNOWN-OP")
   | [] -> ()
   | t :: _ when String.length t > 0 && t.[0] = '#' -> ()
-  | _ -> report lineno line "UNKNOWN-LINE"
+  | _ -> if not (world_line lineno line toks) then report lineno line "UNKNOWN-LINE"
 
 let () =
   (try
